@@ -318,7 +318,7 @@ class Flow:
 # (B) bounded exhaustive enumerator: skeletons x canonical name fillings
 
 FULL = (('asg', 0), ('asg', 1), ('asg', 2), ('tup', 0), ('tup', 1), ('tup', 2), ('cmp', 0), ('cmp', 1), ('cmp', 2),
-        ('ret', 0), ('ret', 1), ('ret', 2))
+        ('ret', 0), ('ret', 1), ('ret', 2), ('ist', 0), ('ist', 1))
 OWN = {'if1': 0, 'for': 1, 'fz': 2, 'whl': 0, 'whn': 1, 'wth': 1}
 DEPTH = 2
 
@@ -333,6 +333,8 @@ def nslots(s):
         return 2 + s[1]
     if k == 'ret':
         return s[1]
+    if k == 'ist':
+        return 1 + s[1]
     if k == 'pass':
         return 0
     if k == 'ife':
@@ -389,6 +391,8 @@ def slots(b, out):
             out += ['D', 'D'] + (['U!'] if s[1] == 1 else ['U'] if s[1] == 2 else [])
         elif k == 'ret':
             out += ['U', 'U<'][:s[1]]
+        elif k == 'ist':
+            out += ['U'] + ['U'][:s[1]]        # an indexed store reads its base name; it binds nothing
         elif k == 'ife':
             slots(s[1], out)
             slots(s[2], out)
@@ -453,6 +457,9 @@ def render(b, fill, names=NAMES):
                     lines.append(f'{pad}{x} = [{f"({y}, {nm()})" if s[1] else y} for {y} in ys]')
             elif k == 'ret':
                 lines.append(f'{pad}return {rhs([nm() for _ in range(s[1])])}')
+            elif k == 'ist':
+                x = nm()
+                lines.append(f'{pad}{x}[0] = {rhs([nm() for _ in range(s[1])])}')
             elif k == 'pass':
                 lines.append(f'{pad}pass')
             elif k == 'ife':
@@ -877,6 +884,8 @@ _GUIDE = [
     ('def main():\n    return a\n', 'use-of:never-bound', False),
     ('def main(xs0):\n    for i, (a, b) in enumerate(zip(xs0, xs0)):\n        pass\n    return i\n', 'use-of:for-target', False),
     ('def main():\n    with fp.FP32 as a:\n        b = a\n    return (a, b)\n', None, False),
+    ('def main(c0):\n    if c0:\n        a = [0]\n    a[0] = 1\n    return 0\n', 'use-of:if1-body', False),
+    ('def main():\n    a[0] = 1\n    return 0\n', 'use-of:never-bound', False),
 ]
 
 
@@ -894,7 +903,7 @@ def selftest():
             for fill in fillings(slots(b, [])):
                 texts.add(render(b, fill))
                 n += 1
-    assert n == len(texts) == 4310, (n, len(texts))
+    assert n == len(texts) == 5237, (n, len(texts))
     assert '@fp.fpy\ndef main(xs0):\n    for a in xs0:\n        pass\n    return a\n' in texts
     # 3. the run-time detectors see what they must see on this tree: delete a binding / the final return
     #    from the AST of an accepted function (bypassing the front end) and call it
